@@ -2,11 +2,17 @@
 
    init lair period=<ns> rate=<atomics> genesis=<ns> dur=<ns> users=a,b,.. owner=<name>
              denoms=<whitelisted,..> extra=<other,..> bal=<initial balance per user and denom>
+             watch=<addresses that are only observed: never a sender, no balance>  cur=<crate version x.y.z>
    bond     <height> <time_ns> <sender> <denom|@token> <amount> <-|denom:amt,denom:amt>
-   unbond   <height> <time_ns> <sender> <denom|@token> <amount>
-   withdraw <height> <time_ns> <sender> <denom>
-   config   <height> <time_ns> <sender> <period|-> <rate|->
-   setguard <height> <time_ns> <sender> <0|1>      (environment: the fee distributor's guards pass / fail)
+   unbond   <height> <time_ns> <sender> <denom|@token> <amount> [+denom:amt,denom:amt]
+   withdraw <height> <time_ns> <sender> <denom> [+coins]
+   config   <height> <time_ns> <sender> <period|-> <rate|-> [+coins]
+   send     <height> <time_ns> <sender> <coins>     (plain bank transfer to the contract)
+   migrate  <height> <time_ns> <sender> from=<x.y.z>[L]   (stored cw2 version rewritten beforehand; `L`: the
+                                                   `config` item rewritten in the 0.8.x layout as well)
+   setguard <height> <time_ns> <sender> <0|1>      (the owner points the contract at the real fee distributor (1)
+                                                   or at a stub whose guards fail (0))
+   The trailing `+coins` token = `info.funds` of a message that does not ask for any.
 -/
 import Driver.Util
 import WW.Model.Lair
@@ -20,6 +26,10 @@ structure LairDrv where
   /-- all denoms (whitelisted and extra), sorted; the id of a denom is its index -/
   denoms : List String
   guards : Bool
+  /-- addresses that are observed only (ids after the users') -/
+  watch : List String
+  /-- the crate version the harness read from the freshly instantiated contract's cw2 item -/
+  cur : Ver
 
 def insStr (x : String) : List String → List String
   | [] => [x]
@@ -40,15 +50,34 @@ def resStr {α : Type} (f : α → String) : Res α → String
   | .err => "err"
   | .panic => "panic"
 
+/-- `count:total` of one `Unbonding` page -/
+def pageStr (p : List UnbRec) : String := s!"{p.length}:{sumAmt p}"
+
+/-- walk of the `Unbonding` query with `limit: None` and `start_after` = the last key seen, until a page
+    comes back shorter than the default page: (records, Σ total_amount) -/
+def walkDefault (s : St) (a d : Nat) : Nat → Option Nat → Nat × Nat → Nat × Nat
+  | 0, _, acc => acc
+  | fuel + 1, sa, (n, tot) =>
+    let p := qUnbondingPage s a d sa none
+    let acc := (n + p.length, tot + sumAmt p)
+    if p.length < Gen.LAIR_DEFAULT_PAGE_LIMIT then acc
+    else walkDefault s a d fuel ((p.getLast?).map (·.ts)) acc
+
+def verStr (v : Ver) : String := s!"{v.major}.{v.minor}.{v.patch}"
+
 def lairObs (d : LairDrv) (now : Nat) (outcome : String) : String :=
   let s := d.s
   let dn (i : Nat) : String := d.denoms.getD i "?"
   let assets (l : List (Nat × Nat)) : String := dash (l.map fun (e, y) => s!"{dn e}:{y}")
-  let head := [outcome, s!"P={s.period}/{s.rate}",
-    s!"T={s.global.bonded}/{assets s.global.assets}", s!"G={s.global.ts}/{s.global.weight}"]
+  let fd := if !s.fdSet then "empty" else if d.guards then "real" else "stub"
+  let head := [outcome,
+    s!"P={s.period}/{s.rate}/{d.users.getD d.cfg.owner "?"}/{dash (d.cfg.whitelist.map dn)}/{fd}",
+    s!"T={s.global.bonded}/{assets s.global.assets}",
+    s!"G={s.global.ts}/{s.global.weight}/{s.global.bonded}/{assets s.global.assets}"]
   let contract := (List.range d.denoms.length).map fun j => s!"C.{dn j}={s.bal j}"
-  let perUser := (List.range d.users.length).flatMap fun i =>
-    let u := d.users.getD i "?"
+  let addrs := d.users ++ d.watch
+  let perUser := (List.range addrs.length).flatMap fun i =>
+    let u := addrs.getD i "?"
     let b := resStr (fun (r : Nat × List (Nat × Nat) × Nat) => s!"{r.1}/{r.2.2}/{assets r.2.1}") (qBonded d.cfg s i)
     let q := resStr (fun (r : Nat × Nat × Nat) => s!"{r.1}/{r.2.1}/{r.2.2}") (qWeight s now i)
     [s!"B.{u}={b}", s!"Q.{u}={q}"] ++
@@ -56,8 +85,26 @@ def lairObs (d : LairDrv) (now : Nat) (outcome : String) : String :=
       let recs := qUnbonding s i j
       let un := s!"{sumAmt recs}/{dash (recs.map fun r => s!"{r.ts}:{r.amount}")}"
       let w := resStr (fun (x : Nat) => toString x) (qWithdrawable s now i j)
-      [s!"U.{u}.{dn j}={un}", s!"W.{u}.{dn j}={w}", s!"b.{u}.{dn j}={s.ubal i j}"]
+      let pages : List String :=
+        if recs.isEmpty then []
+        else
+          let mid := (recs.getD ((recs.length - 1) / 2) ⟨0, 0, 0, 0⟩).ts
+          let pa := qUnbondingPage s i j (some mid) none
+          let pb := if mid = 0 then [] else qUnbondingPage s i j (some (mid - 1)) (some 1)
+          let first (p : List UnbRec) : Nat := (p.head?.map (·.ts)).getD 0
+          let wk := walkDefault s i j (recs.length + 1) none (0, 0)
+          [s!"V.{u}.{dn j}={pageStr (qUnbondingPage s i j none none)}/{pageStr (qUnbondingPage s i j none (some 255))}/{pageStr pa}:{first pa}/{pageStr pb}:{first pb}/{wk.1}:{wk.2}"]
+      [s!"U.{u}.{dn j}={un}"] ++ pages ++ [s!"W.{u}.{dn j}={w}", s!"b.{u}.{dn j}={s.ubal i j}"]
   " ".intercalate (head ++ contract ++ perUser)
+
+def parseVer (w : String) : Option Ver :=
+  match w.splitOn "." with
+  | [a, b, c] => do
+    let a ← a.toNat?
+    let b ← b.toNat?
+    let c ← c.toNat?
+    pure ⟨a, b, c⟩
+  | _ => none
 
 def lairInit (ws : List String) : Option (LairDrv × String) := do
   let m := kvs ws
@@ -77,7 +124,10 @@ def lairInit (ws : List String) : Option (LairDrv × String) := do
   let nD := denoms.length
   let cfg : Cfg := { whitelist := wlIds, owner := owner, genesis := genesis, epochDur := dur }
   let s := Lair.init period rate (fun a d => if a < nU ∧ d < nD then bal else 0)
-  let d : LairDrv := { cfg := cfg, s := s, users := users, denoms := denoms, guards := true }
+  -- absent on op files written before the engine sent `migrate` (they contain none): every migration refused
+  let cur := (parseVer (lookupStr m "cur")).getD ⟨0, 0, 0⟩
+  let d : LairDrv := { cfg := cfg, s := s, users := users, denoms := denoms, guards := true,
+                       watch := csv (lookupStr m "watch"), cur := cur }
   pure (d, lairObs d now "ok")
 
 def parseAsset (d : LairDrv) (w : String) : Option AssetRef :=
@@ -96,23 +146,45 @@ def parseFunds (d : LairDrv) (w : String) : Option (List (Nat × Nat)) :=
 def optNat (w : String) : Option (Option Nat) :=
   if w == "-" then some none else w.toNat?.map some
 
+/-- the trailing `+coins` token of a message that carries funds it does not ask for -/
+def parseAttached (d : LairDrv) : List String → Option (List (Nat × Nat))
+  | [] => some []
+  | [w] => if w.startsWith "+" then parseFunds d (w.drop 1).toString else none
+  | _ => none
+
 def parseOp (d : LairDrv) : List String → Option Op
   | ["bond", a, x, f] => do
     let a ← parseAsset d a
     let x ← x.toNat?
     let f ← parseFunds d f
     pure (.bond a x f)
-  | ["unbond", a, x] => do
+  | "unbond" :: a :: x :: rest => do
     let a ← parseAsset d a
     let x ← x.toNat?
-    pure (.unbond a x)
-  | ["withdraw", dn] => do
+    let c ← parseAttached d rest
+    pure (.unbond a x c)
+  | "withdraw" :: dn :: rest => do
     let i ← idxOf? dn d.denoms
-    pure (.withdraw i)
-  | ["config", p, r] => do
+    let c ← parseAttached d rest
+    pure (.withdraw i c)
+  | "config" :: p :: r :: rest => do
     let p ← optNat p
     let r ← optNat r
-    pure (.config p r)
+    let c ← parseAttached d rest
+    pure (.config p r c)
+  | ["send", c] => do
+    let c ← parseFunds d c
+    pure (.send c)
+  | ["migrate", f] =>
+    if !f.startsWith "from=" then none
+    else
+      let v : String := (f.drop 5).toString
+      let legacy := v.endsWith "L"
+      let v : String := if legacy then (v.dropEnd 1).toString else v
+      match parseVer v with
+      | none => none
+      -- the 0.8.x layout is only ever arranged for a version whose storage migration reads it
+      | some st => if legacy && !st.lt V090 then none else some (.migrate st d.cur legacy)
   | _ => none
 
 def lairOp (d : LairDrv) (ws : List String) : LairDrv × String :=
@@ -123,7 +195,11 @@ def lairOp (d : LairDrv) (ws : List String) : LairDrv × String :=
       match opn :: args with
       | ["setguard", g] =>
         match g.toNat? with
-        | some g => let d' := { d with guards := g != 0 }; (d', lairObs d' now "ok")
+        | some g =>
+          -- the owner's `UpdateConfig { fee_distributor_addr }`, whatever the sender column says
+          match step d.cfg d.s { now := now, sender := d.cfg.owner, guardsOk := d.guards } .setFd with
+          | .ok s' => let d' := { d with guards := g != 0, s := s' }; (d', lairObs d' now "ok")
+          | _ => (d, "bad-op")
         | none => (d, "bad-op")
       | rest =>
         match parseOp d rest with
